@@ -923,7 +923,9 @@ fn script_from_shape(r: &mut Rng, name: &str, sh: &[bool]) -> Vec<Tok<Item>> {
 }
 fn rnd_long_script(r: &mut Rng, name: &str, side: &str) -> Vec<Tok<Item>> {
     let n = r.range(0, 12);
-    let unf = may_unfuse(name, side) && r.chance(1, 4);
+    // combinators that are fused whatever their input (`Take`, `Fuse`) get unfused inputs half of the time
+    let own_fuse = matches!((name, side), ("take", _) | ("fuse", _) | ("pt", _) | ("pc", "A"));
+    let unf = may_unfuse(name, side) && r.chance(1, if own_fuse { 2 } else { 4 });
     let no_pend = name == "from_fn";
     (0..n)
         .map(|_| {
